@@ -160,10 +160,10 @@ func normListElems(z *mirror.Z) {
 // (a) Extract(Insert(v)) == v ; (c) inactive members are neither written nor read
 
 type rtCase struct {
-	Tape    []uint64        `json:"tape"`     // draws that rebuild the Go value
-	Garbage []uint64        `json:"garbage"`  // draws for the inactive members
-	Arena   int             `json:"arena"`    // 0 single, 1 multi small
-	Prefill uint64          `json:"prefill"`  // pattern pre-filled into the root's data words before Insert (0 = none)
+	Tape    []uint64 `json:"tape"`    // draws that rebuild the Go value
+	Garbage []uint64 `json:"garbage"` // draws for the inactive members
+	Arena   int      `json:"arena"`   // 0 single, 1 multi small
+	Prefill uint64   `json:"prefill"` // pattern pre-filled into the root's data words before Insert (0 = none)
 }
 
 func buildValue(c rtCase) *mirror.Z {
@@ -334,8 +334,8 @@ func isPointerMember(w air.Z_Which) bool {
 
 var _ = pbt.Register(pbt.Spec[rtCase]{
 	Property: "C19", Name: "roundtrip-z",
-	Rule:     "Go values of a mirror of aircraftlib.Z (every union member: scalars with extremes/NaN, text/data with arbitrary bytes, all list kinds, nested Z / List(Z) / List(List(Z)), groups, struct pointers incl. nil, enums out of range), rebuilt from the tape of draws; inactive union members of the inserted value AND of the extraction target are filled with garbage; root optionally pre-filled with a bit pattern. Oracle: Insert succeeds; reading the message through the generated accessors shows exactly the active member's value; only the discriminant and the active member's bit range (from the schema node) change in the root's data words; Extract(Insert(v)) equals v on the active member (nil == empty slices) and leaves the Go fields of inactive members untouched. Non-trivial: active member is pointer-typed or a group.",
-	Quick:    8000, Thorough: 80000,
+	Rule:  "Go values of a mirror of aircraftlib.Z (every union member: scalars with extremes/NaN, text/data with arbitrary bytes, all list kinds, nested Z / List(Z) / List(List(Z)), groups, struct pointers incl. nil, enums out of range), rebuilt from the tape of draws; inactive union members of the inserted value AND of the extraction target are filled with garbage; root optionally pre-filled with a bit pattern. Oracle: Insert succeeds; reading the message through the generated accessors shows exactly the active member's value; only the discriminant and the active member's bit range (from the schema node) change in the root's data words; Extract(Insert(v)) equals v on the active member (nil == empty slices) and leaves the Go fields of inactive members untouched. Non-trivial: active member is pointer-typed or a group.",
+	Quick: 8000, Thorough: 80000,
 	Gen: func(t *rapid.T) rtCase {
 		r := &mirror.Rapid{T: t}
 		mirror.GenZ(r, 2)
@@ -354,11 +354,11 @@ var _ = pbt.Register(pbt.Spec[rtCase]{
 // (b) messages built by other means: Extract == generated accessors
 
 type agreeCase struct {
-	Tape   []uint64       `json:"tape"`
-	Plan   ref.Plan       `json:"plan"`
-	Pad    []int          `json:"pad"`   // struct padding script (newer-version layouts)
-	Disc   int            `json:"disc"`  // >=0: overwrite the root discriminant (fields read under another type)
-	Muts   []gen.Mutation `json:"mutations"`
+	Tape []uint64       `json:"tape"`
+	Plan ref.Plan       `json:"plan"`
+	Pad  []int          `json:"pad"`  // struct padding script (newer-version layouts)
+	Disc int            `json:"disc"` // >=0: overwrite the root discriminant (fields read under another type)
+	Muts []gen.Mutation `json:"mutations"`
 }
 
 // pad adds trailing zero words / null pointers to structs following the script (a message written by a newer schema version).
@@ -519,8 +519,8 @@ func runAgree(c agreeCase) (pbt.Result, error) {
 
 var _ = pbt.Register(pbt.Spec[agreeCase]{
 	Property: "C19", Name: "extract-vs-accessors",
-	Rule:     "Z messages re-encoded by the independent encoder in other layouts (1-4 segments, far/double-far), with structs and struct-list elements padded/truncated like newer/older schema versions, optionally with the root discriminant re-pointed (the same bytes read as another member) or 1-2 hostile word mutations. Oracle: whenever the generated accessors read the whole active member without error, pogs.Extract succeeds and yields exactly the same values (defaults, discriminants, groups, lists). Non-trivial: padded or re-pointed message whose active member is pointer-typed.",
-	Quick:    8000, Thorough: 80000,
+	Rule:  "Z messages re-encoded by the independent encoder in other layouts (1-4 segments, far/double-far), with structs and struct-list elements padded/truncated like newer/older schema versions, optionally with the root discriminant re-pointed (the same bytes read as another member) or 1-2 hostile word mutations. Oracle: whenever the generated accessors read the whole active member without error, pogs.Extract succeeds and yields exactly the same values (defaults, discriminants, groups, lists). Non-trivial: padded or re-pointed message whose active member is pointer-typed.",
+	Quick: 8000, Thorough: 80000,
 	Gen: func(t *rapid.T) agreeCase {
 		r := &mirror.Rapid{T: t}
 		mirror.GenZ(r, 2)
@@ -558,13 +558,13 @@ var _ = pbt.Register(pbt.Spec[agreeCase]{
 // (d) renamed / omitted / embedded fields and default-valued fields
 
 type pbRenamed struct {
-	Title    string        `capnp:"name"`
+	Title    string `capnp:"name"`
 	Homes    []air.Airport
-	Score    int64         `capnp:"rating"`
+	Score    int64 `capnp:"rating"`
 	CanFly   bool
 	Capacity int64
-	Top      float64       `capnp:"maxSpeed"`
-	Ignored  int           `capnp:"-"`
+	Top      float64 `capnp:"maxSpeed"`
+	Ignored  int     `capnp:"-"`
 }
 
 type l3 struct {
@@ -621,6 +621,40 @@ type PBCore struct {
 	Rating int64
 }
 
+// visibility rules for fields that reach the same schema field through anonymous embedding (doc.go, "Embedding")
+type visA struct{ Name string }
+type visB struct {
+	Label string `capnp:"name"`
+}
+type visC struct{ Name string }
+type visD struct {
+	Other string `capnp:"name"`
+}
+type pbTaggedWins struct { // same depth, one tagged: the tagged one is the field
+	visA
+	visB
+	Rating int64
+}
+type pbConflict struct { // same depth, both untagged: both ignored, no error
+	visA
+	visC
+	Rating int64
+}
+type pbShallow struct { // the less nested one is the field
+	visA
+	Name   string
+	Rating int64
+}
+type pbTagCollision struct { // same depth, both tagged: both ignored, no error
+	visB
+	visD
+	Rating int64
+}
+type zTextvecBytes struct { // List(Text) as [][]byte
+	Which   air.Z_Which
+	Textvec [][]byte
+}
+
 type variantCase struct {
 	Variant int      `json:"variant"`
 	Tape    []uint64 `json:"tape"`
@@ -644,14 +678,81 @@ func canonFromVariant(variant int, s mirror.Src) (val interface{}, canon mirror.
 			nb = []byte(pb.Name)
 		}
 		return &pbBytesName{Name: nb, Homes: pb.Homes, Rating: pb.Rating, CanFly: pb.CanFly, Capacity: pb.Capacity, MaxSpeed: pb.MaxSpeed}, *pb, air.PlaneBase_TypeID
+	case 4:
+		return &pbTaggedWins{visA{"ignored-A"}, visB{pb.Name}, pb.Rating}, mirror.PlaneBase{Name: pb.Name, Rating: pb.Rating}, air.PlaneBase_TypeID
+	case 5:
+		return &pbConflict{visA{"ignored-A"}, visC{"ignored-C"}, pb.Rating}, mirror.PlaneBase{Rating: pb.Rating}, air.PlaneBase_TypeID
+	case 6:
+		return &pbShallow{visA{"ignored-A"}, pb.Name, pb.Rating}, mirror.PlaneBase{Name: pb.Name, Rating: pb.Rating}, air.PlaneBase_TypeID
+	case 7:
+		return &pbTagCollision{visB{"ignored-B"}, visD{"ignored-D"}, pb.Rating}, mirror.PlaneBase{Rating: pb.Rating}, air.PlaneBase_TypeID
 	default:
 		c := mirror.PlaneBase{Name: pb.Name, Rating: pb.Rating}
 		return &b737Named{PBCore{Name: pb.Name, Rating: pb.Rating}}, c, air.B737_TypeID
 	}
 }
 
+// runTextvecBytes: List(Text) mapped to [][]byte (nil, empty and non-empty entries).
+func runTextvecBytes(c variantCase) (pbt.Result, error) {
+	var res pbt.Result
+	res.Class("variant:%d", c.Variant)
+	s := &mirror.Tape{Vals: c.Tape}
+	in := &zTextvecBytes{Which: air.Z_Which_textvec}
+	for i, n := 0, s.Int(0, 5); i < n; i++ {
+		switch s.Int(0, 3) {
+		case 0:
+			in.Textvec = append(in.Textvec, nil)
+		case 1:
+			in.Textvec = append(in.Textvec, []byte{})
+		default:
+			b := mirror.Bytes(s, "tv", 12)
+			for k := range b {
+				if b[k] == 0 {
+					b[k] = 1
+				}
+			}
+			in.Textvec = append(in.Textvec, b)
+		}
+	}
+	res.Nontrivial = len(in.Textvec) > 0
+	_, seg, _ := capnp.NewMessage(capnp.SingleSegment(nil))
+	z, err := air.NewRootZ(seg)
+	if err != nil {
+		return res, pbt.Fail("harness/new", "%v", err)
+	}
+	if err := pogs.Insert(air.Z_TypeID, z.Struct, in); err != nil {
+		return res, pbt.Fail("insert-error/variant", "List(Text) as [][]byte: %v", err)
+	}
+	tl, err := z.Textvec()
+	if z.Which() != air.Z_Which_textvec || err != nil || tl.Len() != len(in.Textvec) {
+		return res, pbt.Fail("insert-differs-from-accessors/variant8", "Which=%v, Textvec(): len %d err %v, %d entries were given", z.Which(), tl.Len(), err, len(in.Textvec))
+	}
+	for i, want := range in.Textvec {
+		got, err := tl.At(i)
+		if err != nil || got != string(want) {
+			return res, pbt.Fail("insert-differs-from-accessors/variant8", "Textvec()[%d] = %q (err %v), %q was given", i, got, err, want)
+		}
+	}
+	out := &zTextvecBytes{}
+	if err := pogs.Extract(out, air.Z_TypeID, z.Struct); err != nil {
+		return res, pbt.Fail("extract-error/variant", "List(Text) as [][]byte: %v", err)
+	}
+	if out.Which != in.Which || len(out.Textvec) != len(in.Textvec) {
+		return res, pbt.Fail("roundtrip-differs/variant8", "extracted Which=%v, %d entries; %d were given", out.Which, len(out.Textvec), len(in.Textvec))
+	}
+	for i := range in.Textvec {
+		if string(out.Textvec[i]) != string(in.Textvec[i]) {
+			return res, pbt.Fail("roundtrip-differs/variant8", "entry %d: %q extracted, %q given", i, out.Textvec[i], in.Textvec[i])
+		}
+	}
+	return res, nil
+}
+
 func runVariant(c variantCase) (pbt.Result, error) {
 	var res pbt.Result
+	if c.Variant == 8 {
+		return runTextvecBytes(c)
+	}
 	val, canon, typeID := canonFromVariant(c.Variant, &mirror.Tape{Vals: c.Tape})
 	_, seg, _ := capnp.NewMessage(capnp.SingleSegment(nil))
 	var st capnp.Struct
@@ -694,8 +795,17 @@ func runVariant(c variantCase) (pbt.Result, error) {
 	if err := pogs.Extract(out.Interface(), typeID, st); err != nil {
 		return res, pbt.Fail("extract-error/variant", "variant %d: %v", c.Variant, err)
 	}
-	if r, ok := val.(*pbRenamed); ok {
+	switch r := val.(type) {
+	case *pbRenamed:
 		r.Ignored = 0 // "-" fields are neither inserted nor extracted
+	case *pbTaggedWins:
+		r.visA.Name = "" // fields hidden by the visibility rules are neither inserted nor extracted
+	case *pbConflict:
+		r.visA.Name, r.visC.Name = "", ""
+	case *pbShallow:
+		r.visA.Name = ""
+	case *pbTagCollision:
+		r.visB.Label, r.visD.Other = "", ""
 	}
 	if e := sameVal(out.Interface(), val); e != nil {
 		return res, pbt.Fail(fmt.Sprintf("roundtrip-differs/variant%d", c.Variant), "Extract(Insert(v)) != v: %v", e)
@@ -705,11 +815,18 @@ func runVariant(c variantCase) (pbt.Result, error) {
 
 var _ = pbt.Register(pbt.Spec[variantCase]{
 	Property: "C19", Name: "renamed-embedded",
-	Rule:     "PlaneBase/B737 values through Go types with capnp:\"name\" renames, a capnp:\"-\" field, three levels of anonymous embedding with two fields in the innermost struct, Text mapped to []byte (nil and non-nil), and a tagged (named) embedded struct; oracle: after Insert the generated accessors return exactly the given values and Extract returns the value inserted. Non-trivial: name or homes non-empty.",
-	Quick:    3000, Thorough: 30000,
+	Rule:  "PlaneBase/B737 values through Go types with capnp:\"name\" renames, a capnp:\"-\" field, three levels of anonymous embedding with two fields in the innermost struct, Text mapped to []byte (nil and non-nil), a tagged (named) embedded struct, the four visibility rules for embedded fields that reach the same schema field (tagged beats untagged at equal depth; two untagged or two tagged at equal depth are both ignored without error; the less nested field wins), and List(Text) mapped to [][]byte; oracle: after Insert the generated accessors return exactly the given values and Extract returns the value inserted. Non-trivial: name or homes non-empty.",
+	Quick: 3000, Thorough: 30000,
 	Gen: func(t *rapid.T) variantCase {
 		r := &mirror.Rapid{T: t}
-		v := rapid.IntRange(0, 3).Draw(t, "variant")
+		v := rapid.IntRange(0, 8).Draw(t, "variant")
+		if v == 8 {
+			tp := variantCase{Variant: v}
+			for i := 0; i < 80; i++ {
+				tp.Tape = append(tp.Tape, rapid.Uint64().Draw(t, "tape"))
+			}
+			return tp
+		}
 		canonFromVariant(v, r)
 		return variantCase{Variant: v, Tape: r.Tape}
 	},
@@ -819,8 +936,8 @@ func runDefaults(c defaultsCase) (pbt.Result, error) {
 
 var _ = pbt.Register(pbt.Spec[defaultsCase]{
 	Property: "C19", Name: "defaults",
-	Rule:     "aircraftlib.Defaults (all fields have non-zero defaults) through Go types mapping Text to string or []byte, with nil / empty / arbitrary text and data, drawn float bit patterns and integers, and untouched messages; oracle: after Insert the generated getters return exactly the inserted values (nil and empty text/data mean empty, never the schema default); Extract returns what the generated getters return (the defaults for an untouched message).",
-	Quick:    4000, Thorough: 40000,
+	Rule:  "aircraftlib.Defaults (all fields have non-zero defaults) through Go types mapping Text to string or []byte, with nil / empty / arbitrary text and data, drawn float bit patterns and integers, and untouched messages; oracle: after Insert the generated getters return exactly the inserted values (nil and empty text/data mean empty, never the schema default); Extract returns what the generated getters return (the defaults for an untouched message).",
+	Quick: 4000, Thorough: 40000,
 	Gen: func(t *rapid.T) defaultsCase {
 		s := &mirror.Rapid{T: t}
 		return defaultsCase{
